@@ -85,7 +85,10 @@ class Site(object):
                 body += r.get('extra', '')
                 if r.get('no_newline'):
                     body = body.rstrip('\n')
-                return 'robots200', _http(200, 'OK', body.encode(r.get('encoding', 'utf-8')), 'text/plain')
+                raw = body.encode(r.get('encoding', 'utf-8'))
+                if r.get('bom'):
+                    raw = b'\xef\xbb\xbf' + raw          # a byte order mark in front of the first record
+                return 'robots200', _http(200, 'OK', raw, 'text/plain')
             if k == 'missing':
                 return 'robots404', _http(404, 'Not Found', b'no', 'text/plain')
             if k == 'error500':
